@@ -30,7 +30,7 @@ META = {
     "C07": dict(cat="exploration", ref="§3 C07", technique="grammar fuzzer speaking well-framed protocol from an independent reference peer at a real default-config Connection, with canary/secret-token/audit/ledger monitors",
                 text="Held on the generated hostile sessions (all message kinds, handler ids, labels, forged/harvested ids, crafted exception payloads).",
                 note="reference codec lib/rv/refcodec.py; audit hook + canary descriptors decide 'touched'; secrets searched in outgoing bytes"),
-    "C08": dict(cat="exploration", ref="§3 C08", technique="offline checker over the recorded frame ledger (request/response bijection per seq) plus client-side token correlation, over generated request streams",
+    "C08": dict(cat="exploration", ref="§3 C08", technique="offline checker over the recorded frame ledger (request/response bijection per seq) plus client-side token correlation, over generated request streams; plus several threads serving one connection under the controlled scheduler",
                 text="Held on the generated request streams incl. unencodable results, undecodable arguments, failing handlers, nested and asynchronous requests.",
                 note="frames re-parsed by the independent codec; in-memory transport"),
     "C09": dict(cat="exploration", ref="§3 C09", technique="runtime oracle over every built-in exception class x argument tuples x the four-switch matrix on real connections, with constructor/import canaries and wire scans",
@@ -45,19 +45,19 @@ META = {
     "C12": dict(cat="exploration", ref="§3 C12", technique="controlled scheduler (baton threads + sys.monitoring LINE pre-emption) over the real Connection._send with a recording transport; systematic delay placement + seeded random schedules",
                 text="Sampled and systematically delay-injected interleavings at source-line granularity; counts of distinct interleavings reported. Not exhaustive.",
                 note="scheduler replaces the connection's lock objects by scheduler-aware ones with the same semantics"),
-    "C13": dict(cat="exploration", ref="§3 C13", technique="controlled scheduler + scripted reference peer answering in any order; per-request token histories, dispatch ledger, deadlock / lost-wake-up detector",
+    "C13": dict(cat="exploration", ref="§3 C13", technique="controlled scheduler + scripted reference peer answering in any order; per-request token histories, dispatch ledger, invariant at every yield point, deadlock / lost-wake-up detector; complementary free-running real-thread stress with the same history oracle",
                 text="Sampled interleavings (line granularity, instruction granularity in the sequence counter) of 2-3 client threads + optional background server.",
                 note="as C12; liveness verdict excludes runs tainted by the known C14 stall"),
     "C14": dict(cat="exploration", ref="§3 C14", technique="virtual-time monitor: time the waiter returns vs. time its reply was dispatched, under controlled schedules around the hand-off",
                 text="Sampled + single-delay-placement schedules; a genuine defect of the pinned tree is a listed known finding.",
                 note="virtual clock advances only when no thread can run, so any gap is a real stall"),
-    "C15": dict(cat="exploration", ref="§3 C15", technique="executable reference state machine stepped beside the real AsyncResult under a virtual clock over generated event lists",
+    "C15": dict(cat="exploration", ref="§3 C15", technique="executable reference state machine stepped beside the real AsyncResult under a virtual clock over generated event lists; schedules with callbacks registered while another thread dispatches the reply",
                 text="Held on generated event orderings incl. enumerated boundary lists around the expiry instant.",
                 note="virtual clock substituted for the time module references of rpyc.lib / async_"),
-    "C16": dict(cat="exploration", ref="§3 C16", technique="real servers in child processes under hostile byte-level clients beside scripted well-behaved clients with unique tokens",
+    "C16": dict(cat="exploration", ref="§3 C16", technique="real servers in child processes under hostile byte-level clients beside scripted well-behaved clients with unique tokens and identities; delay injection (sys.monitoring LINE) in the per-client set-up and descriptor hand-over paths; state-at-quiescence samples",
                 text="Held on the sampled mixes of hostile and good clients for threaded, thread-pool and forking servers, with and without authenticator.",
                 note="loopback sockets of this host; watchdogs only bound waiting for quiescence"),
-    "C17": dict(cat="exploration", ref="§3 C17", technique="state-at-quiescence monitor over real servers: fd counts, client tables, hook counters, client-side EOF after close",
+    "C17": dict(cat="exploration", ref="§3 C17", technique="state-at-quiescence monitor over real servers: fd counts, client tables, hook counters, client-side EOF after close; delay injection inside close()",
                 text="Held on sampled connect/call/leave histories followed by close; listed known findings for genuine defects.",
                 note="/proc/self/fd accounting after gc.collect() in the server process"),
     "C18": dict(cat="exploration", ref="§3 C18", technique="reference membership model under a virtual clock + real UDP/TCP registry loops under malformed inputs with liveness probe after each",
